@@ -70,7 +70,15 @@ class P(core.Prop):
             'lack PrivateKey / carry PrivateKey although discarding was requested / have extra lines, 4 % with a line '
             'break in a client name, token or mapping text (must be refused), and the three '
             'entry points EphemeralOnionService.create, EphemeralAuthenticatedOnionService.create, '
-            'Tor.create_onion_service. non-trivial = a command was sent or a refusal was required; '
+            'Tor.create_onion_service. Re-use dimension (case["prior"]): 15 % of the random cases, 48 enumerated cells '
+            '(2 versions x 6 auth shapes x {str, int+pair} ports x earlier service removed or not) and the corpus file '
+            'reuse.json are followed by a sibling case with the same request in which an earlier creation (own answer, '
+            'own free ports, removed again or not, all drawn from the case rng) was first given the very same AuthBasic '
+            'object / ports list / key object (prior["share"]: all three in 70 % of them, else a random non-empty '
+            'subset); the sibling is judged like any other case, i.e. its ADD_ONION must again be exactly the request '
+            'as the caller wrote it (a client without a token is sent as ClientAuth=name). AuthStealth exists but '
+            'create() refuses it before anything is sent, so it is not driven. '
+            'non-trivial = a command was sent or a refusal was required; '
             'distinct = distinct case')
     trusted = ["a recording control-protocol double (queue_command / add_event_listener / remove_event_listener) and a "
                "two-attribute config double; available_tcp_port replaced by a stub answering from the case",
@@ -121,7 +129,8 @@ class P(core.Prop):
 
         proto = Proto()
         cfg = Cfg(proto)
-        free = list(case['free'])
+        free = []
+        ignore = []           # services of an earlier creation (case['prior']): not the object under observation
 
         def kind(e):
             if isinstance(e, TorProtocolError):
@@ -132,7 +141,10 @@ class P(core.Prop):
             return 9
 
         def svc():
-            return cfg.EphemeralOnionServices[-1] if cfg.EphemeralOnionServices else None
+            for s in reversed(cfg.EphemeralOnionServices):
+                if not any(s is x for x in ignore):
+                    return s
+            return None
 
         def snapshot():
             s = svc()
@@ -150,19 +162,10 @@ class P(core.Prop):
             clients = []
             if hasattr(s, 'client_names'):
                 for nm in s.client_names():
-                    clients.append([lat(nm).hex(), lat(s.get_client(nm).auth_token).hex()])
+                    tok = s.get_client(nm).auth_token
+                    clients.append([lat(nm).hex(), lat(tok if isinstance(tok, str) else repr(tok)).hex()])
             h = s.hostname
             return ['snap', None if h is None else lat(h).hex(), k, clients]
-
-        state = {'resolved': False}
-
-        def on_done(r):
-            state['resolved'] = True
-            box['cur'].append(['done', r is svc()])
-
-        def on_fail(f):
-            state['resolved'] = True
-            box['cur'].append(['failed', kind(f.value)])
 
         def port_arg(p):
             if 'int' in p:
@@ -173,16 +176,47 @@ class P(core.Prop):
             return (r, l) if p.get('seq', 'tuple') == 'tuple' else [r, l]
 
         key = case['key']
-        private_key = None if key is None else DISCARD if key == 'DISCARD' else key['s']
-        ports = [port_arg(p) for p in case['ports']]
-        saved = onion_mod.available_tcp_port
-        onion_mod.available_tcp_port = lambda reactor: defer.succeed(free.pop(0))
-        trace = []
-        try:
+        prior = case.get('prior')
+        share = set(prior['share']) if prior else set()
+        # the caller's own objects; with case['prior'] the ones named in prior['share'] are handed, as the very same
+        # objects, to an earlier creation first
+        shared = {'auth': None,
+                  'ports': [port_arg(p) for p in case['ports']],
+                  'key': None if key is None else DISCARD if key == 'DISCARD' else key['s']}
+
+        def drive(reply, free_ports, remove, own):
+            """one creation, Tor's answer, one confirmed upload (plain services), remove(): the four phases"""
+            state = {'resolved': False}
+            free[:] = list(free_ports)
+            first_cmd = len(proto.commands)
+
+            def on_done(r):
+                state['resolved'] = True
+                box['cur'].append(['done', r is svc()])
+
+            def on_fail(f):
+                state['resolved'] = True
+                box['cur'].append(['failed', kind(f.value)])
+
+            def arg(what):
+                if what in own:
+                    if what == 'ports':
+                        return [port_arg(p) for p in case['ports']]
+                    if what == 'auth':
+                        return AuthBasic([nm if tok is None else (nm, tok) for nm, tok in case['auth']])
+                    return None if key is None else DISCARD if key == 'DISCARD' else str(key['s'])
+                if what == 'auth' and shared['auth'] is None:
+                    shared['auth'] = AuthBasic([nm if tok is None else (nm, tok) for nm, tok in case['auth']])
+                return shared[what]
+
+            trace = []
+            box['cur'] = []
             # ---- phase 1
             try:
+                ports = arg('ports')
+                private_key = arg('key')
                 if case['auth'] is not None:
-                    auth = AuthBasic([nm if tok is None else (nm, tok) for nm, tok in case['auth']])
+                    auth = arg('auth')
                     d = EphemeralAuthenticatedOnionService.create(
                         object(), cfg, ports, detach=case['detach'], private_key=private_key,
                         version=case['version'], auth=auth, single_hop=case['single'])
@@ -204,13 +238,13 @@ class P(core.Prop):
             trace.append(box['cur'])
             # ---- phase 2: Tor answers
             box['cur'] = []
-            sent = len(proto.commands) > 0
+            sent = len(proto.commands) > first_cmd
             if sent:
-                rd = proto.commands[0][1]
-                if case['reply'].get('err'):
+                rd = proto.commands[first_cmd][1]
+                if reply.get('err'):
                     rd.errback(TorProtocolError(551, 'Failed to add Onion Service'))
                 else:
-                    rd.callback('\n'.join(case['reply']['lines']))
+                    rd.callback('\n'.join(reply['lines']))
                 box['cur'].append(snapshot())
             trace.append(box['cur'])
             # ---- phase 3: one confirmed descriptor upload (plain services)
@@ -226,7 +260,7 @@ class P(core.Prop):
             # ---- phase 4: remove()
             box['cur'] = []
             s = svc()
-            if s is not None and s.hostname is not None:
+            if remove and s is not None and s.hostname is not None:
                 n0 = len(proto.commands)
                 rm = s.remove()
                 rm.addCallbacks(lambda r: box['cur'].append(['removed']), on_fail)
@@ -234,6 +268,17 @@ class P(core.Prop):
                     proto.commands[-1][1].callback('OK')
                 box['cur'].append(snapshot())
             trace.append(box['cur'])
+            return trace
+
+        saved = onion_mod.available_tcp_port
+        onion_mod.available_tcp_port = lambda reactor: defer.succeed(free.pop(0))
+        try:
+            if prior:
+                # an earlier creation by the same caller with the same request objects; it is judged as a case of its
+                # own (the sibling without 'prior'), here only its effect on the objects it was given matters
+                drive(prior['reply'], prior['free'], prior['remove'], set(('auth', 'ports', 'key')) - share)
+                ignore.extend(cfg.EphemeralOnionServices)
+            trace = drive(case['reply'], case['free'], True, set())
         finally:
             onion_mod.available_tcp_port = saved
         return {'trace': trace}
@@ -298,10 +343,12 @@ class P(core.Prop):
 
     def kind(self, case, obs):
         sent = any(e[0] == 'cmd' for e in obs['trace'][0])
-        return '%s/v%d/%s/%s/%dports/%s' % (
+        pr = case.get('prior')
+        return '%s/v%d/%s/%s/%dports/%s%s' % (
             'auth' if case['auth'] is not None else case['entry'], case['version'], self._keyform(case),
             'noauth' if case['auth'] is None else '%dcl' % len(case['auth']), len(case['ports']),
-            'sent' if sent else 'refused')
+            'sent' if sent else 'refused',
+            '' if not pr else '/reuse:%s:%s' % ('+'.join(sorted(pr['share'])), 'removed' if pr['remove'] else 'kept'))
 
     def nontrivial(self, case, obs):
         return len(case['ports']) > 0
@@ -401,6 +448,18 @@ class P(core.Prop):
         case['reply'] = self._reply(rng, case, variant)
         return case
 
+    def _again(self, rng, case, share=None):
+        """the sibling of `case`: the same request made a second time by a caller who hands over the very same objects
+        (prior['share']); what was `case` becomes the earlier creation, the sibling gets an answer and free ports of its own"""
+        if share is None:
+            share = ['auth', 'key', 'ports'] if rng.random() < 0.7 else \
+                sorted(rng.sample(['auth', 'key', 'ports'], rng.choice([1, 2])))
+        sib = dict(case, free=[rng.randrange(1024, 65536) for _ in case['free']])
+        sib['reply'] = self._reply(rng, case, 'err' if case['reply'].get('err') and rng.random() < 0.5 else
+                                   rng.choice(['ok', 'ok', 'ok', 'nopk', 'echo', 'shuffled']))
+        sib['prior'] = {'reply': case['reply'], 'free': list(case['free']), 'remove': rng.random() < 0.5, 'share': share}
+        return sib
+
     def _auth(self, rng, shape):
         if shape is None:
             return None
@@ -425,8 +484,19 @@ class P(core.Prop):
             ports = [self._good_port(rng, f) for f in forms]
             variant = 'leaky' if (keyform == 'discard' and rng.random() < 0.5) else 'ok'
             out.append(self._case(rng, version, keyform, detach, single, self._auth(rng, shape), ports, variant))
+        n_prod = len(out)
+        rng2 = random.Random(20261001)
+        for version, shape, forms, remove in itertools.product(
+                (2, 3), self.AUTH_SHAPES, (['str_ip'], ['int', 'pair_int']), (False, True)):
+            first = self._case(rng2, version, rng2.choice(['none', 'discard', 'bare', 'prefixed']), rng2.random() < 0.5,
+                               False, self._auth(rng2, shape), [self._good_port(rng2, f) for f in forms], 'ok')
+            sib = self._again(rng2, first, share=['auth', 'key', 'ports'])
+            sib['prior']['remove'] = remove
+            out.append(sib)
         return out, ('the product 2 versions x 6 key forms x detach x single-hop x 6 auth shapes x 12 port lists '
-                     '(%d cells) with pseudo-random blobs, names and answers' % len(out))
+                     '(%d cells) with pseudo-random blobs, names and answers; plus %d re-use cells (2 versions x 6 auth '
+                     'shapes x 2 port lists x earlier service removed or kept): a second creation with the same '
+                     'AuthBasic / ports / key objects' % (n_prod, len(out) - n_prod))
 
     def generate(self, rng, tier, n):
         out = []
@@ -458,7 +528,10 @@ class P(core.Prop):
                     ports[0] = {'pair': [80, rng.choice(['127.0.0.1:80', 'unix:/run/x']) + brk]}
             variant = rng.choice(['ok', 'ok', 'ok', 'err', 'nosid', 'nopk', 'leaky', 'echo', 'extra', 'shuffled'])
             out.append(self._case(rng, version, keyform, rng.random() < 0.5, rng.random() < 0.3, auth, ports, variant))
-        return out
+            if rng.random() < 0.15:
+                # the same caller makes the same request again, re-using the objects it passed the first time
+                out.append(self._again(rng, out[-1]))
+        return out[:n]
 
     # ------------------------------------------------------------------ shrinking
     def shrink_candidates(self, case):
@@ -486,6 +559,18 @@ class P(core.Prop):
                 yield dict(case, reply={'lines': ls[:i] + ls[i + 1:]})
         if case['entry'] == 'tor':
             yield dict(case, entry='eph')
+        pr = case.get('prior')
+        if pr:
+            yield {k: v for k, v in case.items() if k != 'prior'}
+            if len(pr['share']) > 1:
+                for x in pr['share']:
+                    yield dict(case, prior=dict(pr, share=[y for y in pr['share'] if y != x]))
+            if pr['remove']:
+                yield dict(case, prior=dict(pr, remove=False))
+            if not pr['reply'].get('err') and len(pr['reply']['lines']) > 1:
+                ls = pr['reply']['lines']
+                for i in range(len(ls)):
+                    yield dict(case, prior=dict(pr, reply={'lines': ls[:i] + ls[i + 1:]}))
 
     finding_preds = {}     # C14-F1 (hostile_linebreak) is fixed; the predicate is still cross-checked via k_hostile
 
